@@ -1391,3 +1391,14 @@ func dnfAndLit(d dnf, lit string) dnf {
 	}
 	return out
 }
+
+var errAtomRe = regexpMust(`@\d+(#\d+)? [=!]= nil\)$`)
+
+// guardsBeyondErrors: the path condition of block b with the "no error so far" tests removed
+// (atoms that compare a call's error result with nil). What is left is the data condition
+// under which b runs on a successful parse; rules that state "exactly under X" compare it
+// with X by equivalence, so an extra conjunct is as visible as a missing one.
+func (c *Ctx) guardsBeyondErrors(fn *ssa.Function, b *ssa.BasicBlock) dnf {
+	pc := c.PC(fn)
+	return dropAtoms(pc.canonOf(pc.At(b)), func(a string) bool { return errAtomRe.MatchString(a) })
+}
